@@ -72,6 +72,8 @@ OPS = [
     "member.set_parameter_values",
     "fix_parameter",
     "release_parameter",
+    "limit_parameter",
+    "unlimit_parameter",
     "add_parameter_constraint",
     "member.add_parameter_constraint",
     "do_fit",
@@ -97,6 +99,10 @@ def floors(tier):
             "member.parameter_cor_mat": 60 * k,
             "member.asymmetric_parameter_errors": 8 * k,
             "member.fixed_parameters": 150 * k,
+            "multi.fixed_parameters": 250 * k,
+            "multi.limited_parameters": 250 * k,
+            "values.within-limits-after-do_fit": 10 * k,
+            "member.result-by-name(order-not-subsequence)": 6 * k,
             "single.parameter_values": 3 * k,
             "single.parameter_cov_mat": 3 * k,
             "gls.parameter_values": 5 * k,
@@ -111,7 +117,8 @@ def floors(tier):
             "overlap:none", "overlap:nested", "overlap:identical", "overlap:partial", "permuted-order",
             "shared:simple", "shared:matrix", "shared:x", "shared:y", "shared:relative", "shared:absolute",
             "shared:all", "shared:subset", "shared:nonadjacent", "shared:two-sources", "shared:with-nonchi2-member",
-            "refuse:size", "refuse:reference", "twin:iminuit", "twin:scipy", "iminuit", "scipy", "gls:shared", "gls:unshared",
+            "refuse:size", "refuse:reference", "order:not-subsequence", "order:not-subsequence+shared", "pre-shared:fix", "pre-shared:limit", "pre-shared:release", "pre-shared:unlimit",
+            "limited", "twin:iminuit", "twin:scipy", "iminuit", "scipy", "gls:shared", "gls:unshared",
         ],
         "distinct_nontrivial": 40 * k,
     }
@@ -148,7 +155,22 @@ RECIPES = [
     {"nm": 4, "shared": _sh("simple", "y", False, "adjacent"), "nonchi2": True},
     {"nm": 2, "shared": _sh("matrix", "x", True, "all")},
     {"nm": 3, "shared": _sh("simple", "y", False, "all"), "linear": True, "minimizer": "iminuit"},
+    # fix / limit / release / unlimit issued on the multi-fit BEFORE its first shared source (the fitter is rebuilt there)
+    {"nm": 2, "shared": _sh("simple", "y", False, "all"), "linear": True, "minimizer": "iminuit", "pre": ["fix", "limit"]},
+    {"nm": 2, "interleaved": True, "types": ["xy", "xy"], "minimizer": "iminuit"},
+    {"nm": 3, "shared": _sh("matrix", "y", False, "nonadjacent"), "linear": True, "minimizer": "iminuit", "pre": ["limit", "fix", "set"]},
+    {"nm": 3, "interleaved": True, "linear": True, "minimizer": "iminuit"},
+    {"nm": 2, "shared": _sh("simple", "x", False, "all"), "pre": ["fix", "fix", "release", "limit", "limit", "unlimit"]},
+    {"nm": 2, "interleaved": True, "shared": _sh("simple", "y", False, "all"), "minimizer": "iminuit"},
+    {"nm": 3, "shared": _sh("simple", "y", True, "adjacent"), "linear": True, "minimizer": "scipy", "pre": ["limit", "limit", "fix"]},
+    {"nm": 4, "interleaved": True, "pattern": "partial"},
+    # members whose own parameter order is not a subsequence of the combined order (f(x, a, b) next to g(x, c, a))
+    {"nm": 2, "interleaved": True, "shared": _sh("matrix", "y", False, "all"), "linear": True, "minimizer": "scipy"},
+    {"nm": 3, "interleaved": True, "pattern": "identical", "types": ["xy", "indexed", "xy"], "minimizer": "iminuit"},
+    {"nm": 3, "shared": _sh("matrix", "y", True, "all"), "pre": ["fix", "limit", "release", "unlimit", "fix"], "minimizer": "iminuit"},
+    {"nm": 2, "interleaved": True, "linear": True, "minimizer": "iminuit", "pre": ["limit"]},
 ]
+PRE_KINDS = ["fix", "limit", "set", "release", "unlimit"]
 
 
 def random_recipe(rng, tier):
@@ -167,7 +189,31 @@ def random_recipe(rng, tier):
         rc["linear"] = True
     if rng.random() < 0.5:
         rc["pattern"] = str(rng.choice(["none", "nested", "identical", "partial"]))
+    if rng.random() < 0.2 and rc.get("pattern") != "none":
+        rc["interleaved"] = True
+    if rng.random() < (0.35 if rc.get("shared") else 0.1):
+        rc["pre"] = [str(v) for v in rng.choice(PRE_KINDS, size=int(rng.integers(1, 5)), p=[0.35, 0.3, 0.15, 0.1, 0.1])]
     return rc
+
+
+def is_subsequence(sub, full):
+    it = iter(full)
+    return all(v in it for v in sub)
+
+
+def combined_names(name_lists):
+    out = []
+    for nl in name_lists:
+        for n in nl:
+            if n not in out:
+                out.append(n)
+    return out
+
+
+def not_subsequence_members(name_lists):
+    """members whose own parameter order is not a subsequence of the combined order (union by first occurrence)"""
+    full = combined_names(name_lists)
+    return [i for i, nl in enumerate(name_lists) if not is_subsequence(nl, full)]
 
 
 def overlap_pattern(name_sets):
@@ -311,7 +357,8 @@ def build_case(rng, tier, rc):
         S = sorted(int(i) for i in rng.choice(nm, size=2, replace=False)) if nm > 2 else [0, 1]
     # ---- types and families (rejection sampling on the requested overlap pattern)
     want = rc.get("pattern")
-    types = fams = None
+    interleaved = bool(rc.get("interleaved"))
+    types = fams = orders = None
     for _ in range(300):
         types = list(rc["types"]) if rc.get("types") else [str(rng.choice(["xy", "indexed", "hist", "unbinned"], p=[0.45, 0.25, 0.15, 0.15])) for _ in range(nm)]
         for i in S:
@@ -330,7 +377,16 @@ def build_case(rng, tier, rc):
                 fams.append(str(rng.choice(pool)))
             else:
                 fams.append(str(rng.choice(DENS)))
-        if want is None or nm < 2 or overlap_pattern([_pnames(f, t in ("hist", "unbinned")) for f, t in zip(fams, types)]) == want:
+        # signature order of every member; "interleaved": some member's order is not a subsequence of the combined order
+        orders, name_lists = [], []
+        for i, t in enumerate(types):
+            base = _pnames(fams[i], t in ("hist", "unbinned"))
+            permute = rng.random() < (0.9 if (interleaved and i > 0) else 0.4)
+            orders.append([int(v) for v in rng.permutation(len(base))] if permute else list(range(len(base))))
+            name_lists.append([base[j] for j in orders[-1]])
+        if interleaved and nm >= 2 and not not_subsequence_members(name_lists):
+            continue
+        if want is None or nm < 2 or overlap_pattern(name_lists) == want:
             break
     # ---- costs
     any_shared_mode = bool(sh)
@@ -385,8 +441,7 @@ def build_case(rng, tier, rc):
     ref_x = ref_y = None
     for i, t in enumerate(types):
         dens = t in ("hist", "unbinned")
-        k = len(_pnames(fams[i], dens))
-        order = [int(v) for v in rng.permutation(k)] if rng.random() < 0.4 else list(range(k))
+        order = orders[i]
         x = y = None
         if sh and relative and i in S:
             if rel_axis == "x" and ref_x is not None:
@@ -457,50 +512,120 @@ def build_case(rng, tier, rc):
                 names.append(nme)
             vals[nme] = float(v)  # the last member wins (any common value is admissible as a starting point)
     start = {nme: float(np.round(vals[nme] * rng.uniform(0.9, 1.1) + rng.uniform(-0.02, 0.02), 5)) for nme in names}
-    history = gen_history(rng, tier, names, vals, info, bool(sh), chi2_member_constraints, minimizer if (len(names) <= 5 or tier != "quick") else "iminuit-no-minos")
+    pre, history = gen_history(
+        rng, tier, names, vals, info, bool(sh), chi2_member_constraints, minimizer if (len(names) <= 5 or tier != "quick") else "iminuit-no-minos", pre_kinds=() if rc.get("twin") else rc.get("pre", ())
+    )
     src_names = [o[1]["name"] for mb in members for o in mb["setup"] if o[0] in ("add_error", "add_matrix_error")] + [s["op"][1]["name"] for s in shared if s["expect"] == "ok"]
     if src_names and nm >= 2 and rng.random() < 0.12:
         pick = [s["op"][1]["name"] for s in shared if s["expect"] == "ok"]
         pool = pick if (pick and rng.random() < 0.7) else src_names
         history.append(["disable_error", str(rng.choice(pool))])
-    return {"property": "C11", "minimizer": minimizer, "twin": bool(rc.get("twin")), "members": members, "shared": shared, "start": start, "history": history, "recipe": {k: v for k, v in rc.items()}}
+    return {"property": "C11", "minimizer": minimizer, "twin": bool(rc.get("twin")), "members": members, "shared": shared, "start": start, "pre": pre, "history": history, "recipe": {k: v for k, v in rc.items()}}
 
 
-def gen_history(rng, tier, names, vals, info, shared_mode, chi2_member_constraints, minimizer):
+def into_limits(v, lim, v0):
+    """a value strictly inside the declared limits (not next to them: a start next to a limit is C06's open finding)"""
+    if not lim:
+        return v
+    lo, hi = lim
+    if lo is not None and hi is not None:
+        m = 0.1 * (hi - lo)
+        v = min(max(v, lo + m), hi - m)
+    elif lo is not None:
+        v = max(v, lo + 0.05 * abs(v0) + 1e-3)
+    elif hi is not None:
+        v = min(v, hi - 0.05 * abs(v0) - 1e-3)
+    return float(np.round(v, 6))
+
+
+def gen_history(rng, tier, names, vals, info, shared_mode, chi2_member_constraints, minimizer, pre_kinds=()):
+    """(ops issued on the multi-fit before its first shared source, ops issued after it)"""
     length = int(rng.integers(3, 9)) if tier == "quick" else int(rng.integers(5, 21))
     maxfit = (1 if minimizer == "scipy" else 2) if tier == "quick" else 4
     ops, fixed, nfit = [], set(), 0
+    limits, cur = {}, dict(vals)  # cur: the value last declared (unknown after a fit: the executor skips a limit that excludes the live value)
 
     def near(nme):
-        return float(np.round(vals[nme] * rng.uniform(0.85, 1.15) + rng.uniform(-0.02, 0.02), 5))
+        return into_limits(float(np.round(vals[nme] * rng.uniform(0.85, 1.15) + rng.uniform(-0.02, 0.02), 5)), limits.get(nme), vals[nme])
+
+    def op_set(out):
+        free = [n for n in names if n not in fixed]
+        k = len(free) if rng.random() < 0.4 else int(rng.integers(1, len(free) + 1))
+        pick = [free[int(i)] for i in rng.choice(len(free), size=k, replace=False)]
+        d = {n: near(n) for n in pick}
+        cur.update(d)
+        out.append(["set_parameter_values", d])
+
+    def op_fix(out):
+        free = [n for n in names if n not in fixed]
+        if len(free) <= 1:
+            return
+        n = free[int(rng.integers(0, len(free)))]
+        v = None if rng.random() < 0.5 else near(n)
+        if v is not None:
+            cur[n] = v
+        out.append(["fix_parameter", n, v])
+        fixed.add(n)
+
+    def op_release(out):
+        if not fixed:
+            return
+        n = sorted(fixed)[int(rng.integers(0, len(fixed)))]
+        out.append(["release_parameter", n])
+        fixed.discard(n)
+
+    def op_limit(out):
+        cand = [n for n in names if n not in limits] or list(names)
+        n = cand[int(rng.integers(0, len(cand)))]
+        v0, c = vals[n], cur.get(n, vals[n])
+
+        def w():
+            # from far narrower than the distance of the optimum (active limit) to far wider (inactive)
+            return abs(v0) * 10.0 ** rng.uniform(-2.5, 0.5) + 1e-3
+
+        r = rng.random()
+        lo = None if r < 0.2 else float(np.round(min(c, v0) - w(), 5))
+        hi = None if 0.2 <= r < 0.4 else float(np.round(max(c, v0) + w(), 5))
+        out.append(["limit_parameter", n, lo, hi])
+        limits[n] = [lo, hi]
+
+    def op_unlimit(out):
+        if not limits:
+            return
+        n = sorted(limits)[int(rng.integers(0, len(limits)))]
+        out.append(["unlimit_parameter", n])
+        del limits[n]
+
+    pre = []
+    for kind in pre_kinds:
+        {"fix": op_fix, "limit": op_limit, "set": op_set, "release": op_release, "unlimit": op_unlimit}[kind](pre)
 
     con_members = [t for t in info if chi2_member_constraints or not t[2]] if shared_mode else list(info)
     for _ in range(length):
         r = rng.random()
-        free = [n for n in names if n not in fixed]
-        if r < 0.24:
-            k = len(free) if rng.random() < 0.4 else int(rng.integers(1, len(free) + 1))
-            pick = [free[int(i)] for i in rng.choice(len(free), size=k, replace=False)]
-            ops.append(["set_parameter_values", {n: near(n) for n in pick}])
-        elif r < 0.46:
+        if r < 0.22:
+            op_set(ops)
+        elif r < 0.42:
             mi, mp, _c = info[int(rng.integers(0, len(info)))]
             cand = [n for n in mp if n not in fixed]
             if not cand:
                 continue
             k = int(rng.integers(1, len(cand) + 1))
             pick = [cand[int(i)] for i in rng.choice(len(cand), size=k, replace=False)]
-            ops.append(["member.set_parameter_values", mi, {n: near(n) for n in pick}])
-        elif r < 0.56 and len(free) > 1:
-            n = free[int(rng.integers(0, len(free)))]
-            ops.append(["fix_parameter", n, None if rng.random() < 0.5 else near(n)])
-            fixed.add(n)
-        elif r < 0.64 and fixed:
-            n = sorted(fixed)[int(rng.integers(0, len(fixed)))]
-            ops.append(["release_parameter", n])
-            fixed.discard(n)
-        elif r < 0.73:
+            d = {n: near(n) for n in pick}
+            cur.update(d)
+            ops.append(["member.set_parameter_values", mi, d])
+        elif r < 0.51:
+            op_fix(ops)
+        elif r < 0.58:
+            op_release(ops)
+        elif r < 0.64:
+            op_limit(ops)
+        elif r < 0.67:
+            op_unlimit(ops)
+        elif r < 0.75:
             ops.append(gen.gen_constraint(rng, names, [vals[n] for n in names]))
-        elif r < 0.82 and con_members:
+        elif r < 0.83 and con_members:
             mi, mp, _c = con_members[int(rng.integers(0, len(con_members)))]
             ops.append(["member", mi, gen.gen_constraint(rng, mp, [vals[n] for n in mp])])
         elif nfit < maxfit:
@@ -509,7 +634,7 @@ def gen_history(rng, tier, names, vals, info, shared_mode, chi2_member_constrain
             nfit += 1
     if nfit == 0:
         ops.append(["do_fit", {"asym": bool(minimizer == "iminuit" and rng.random() < 0.4), "via": "do_fit"}])
-    return ops
+    return pre, ops
 
 
 def gen_case(rng, tier, idx, shard, nshards):
@@ -526,6 +651,16 @@ K_DIS_OFF = "C11/disabled-shared-source-stays-in-off-diagonal-blocks"
 K_RELMAT = "C11/shared-relative-matrix-source-always-raises"
 K_RELNONE = "C11/shared-relative-source-with-axis-None-raises-AssertionError"
 K_MSET = "C11/value-set-on-member-unknown-to-minimizer-of-multi-fit"
+K_CLEANUP = "C11/failed-multifit-do_fit-cleanup-raises-AttributeError-and-leaves-member-nodes-frozen"
+
+
+def classify_do_fit_exception(e):
+    """MultiFit.do_fit: the handler that unfreezes the uncertainty nodes after a failed minimisation (FitBase.do_fit) asks the multi-fit's
+    non-existent parametric model for its relative sources: the original exception is replaced by an AttributeError and the members' nodes
+    stay frozen.  Decided by the exception itself: an AttributeError about 'get_matching_errors' raised while another exception was handled."""
+    if isinstance(e, AttributeError) and "get_matching_errors" in str(e) and e.__context__ is not None:
+        return K_CLEANUP
+    return None
 
 
 def _arr(v):
@@ -573,6 +708,7 @@ class World:
         self.values = {n: float(v) for n, v in zip(self.names, multi.parameter_values)}
         self.minview = dict(self.values)  # value of every parameter as last communicated through the multi-fit itself
         self.fixed = set()
+        self.limits = {}  # name -> [lower, upper] as declared through MultiFit.limit_parameter
         self.multi_constraints = []
         self.shared = []  # dicts: src (reference source), fits, axis, enabled
         self.shared_mode = False
@@ -645,7 +781,9 @@ def check_values(W, where):
         exp = {n: W.values[n] for n in mb.ref.model.pnames if n in W.fixed}
         ok &= ctx.eq("member.fixed_parameters", got, exp, detail={"where": where, "member": j, "fixed_on_multi": sorted(W.fixed)})
     got = {n: float(v) for n, v in multi._fitter.fixed_parameters.items()}
-    ok &= ctx.eq("multi.fixed_parameters", got, {n: W.values[n] for n in W.names if n in W.fixed}, detail={"where": where})
+    ok &= ctx.eq("multi.fixed_parameters", got, {n: W.values[n] for n in W.names if n in W.fixed}, detail={"where": where, "last_op": W.last_op})
+    got = {n: [None if v is None else float(v) for v in lim] for n, lim in multi._fitter.limited_parameters.items()}
+    ok &= ctx.eq("multi.limited_parameters", got, {n: list(W.limits[n]) for n in W.limits}, detail={"where": where, "last_op": W.last_op})
     return ok
 
 
@@ -850,6 +988,24 @@ def check_gls(W, where):
     p = np.zeros(len(names))
     p[free] = pf
     p[fix] = pfix
+    # the closed form knows no limits: it is the reference only where every declared limit is inactive, i.e. the unlimited optimum lies
+    # well inside (2 sigma) and the fit does not rest on a limit (a fit that stays on a limit it was started next to: open finding of C06)
+    sig_gls = np.sqrt(np.diag(C))
+    pv_now = np.array(multi.parameter_values, dtype=float)
+    for n, (lo, hi) in W.limits.items():
+        i = names.index(n)
+        if i not in free:
+            continue
+        s_i = float(sig_gls[free.index(i)])
+        span = (hi - lo) if (lo is not None and hi is not None) else max(abs(p[i]), 1.0)
+        near_lo = lo is not None and (p[i] - lo < 2.0 * s_i or abs(pv_now[i] - lo) <= 1e-3 * span)
+        near_hi = hi is not None and (hi - p[i] < 2.0 * s_i or abs(pv_now[i] - hi) <= 1e-3 * span)
+        if near_lo or near_hi:
+            ctx.stratum("limit:active")
+            ctx.discard("gls-skipped-limit-active-or-near")
+            return True
+    if W.limits:
+        ctx.stratum("limit:inactive+gls")
     Cfull = np.zeros((len(names), len(names)))
     Cfull[np.ix_(free, free)] = C
     ptol, costtol, ctol = optim_tols(W.case["minimizer"], condH)
@@ -945,6 +1101,10 @@ def read_values(W):
             return K_MSET if pv[n] == W.minview[n] else None
 
         ok &= ctx.eq("values.member-set-fixed-after-do_fit", pv[n], W.values[n], key=key, detail={"name": n, "value_last_passed_through_the_multi_fit": W.minview[n], "history": [o[0] for o in W.case["history"]]})
+    for n in sorted(W.limits):
+        lo, hi = W.limits[n]
+        inside = (lo is None or pv[n] >= lo - 1e-12 * max(1.0, abs(lo))) and (hi is None or pv[n] <= hi + 1e-12 * max(1.0, abs(hi)))
+        ok &= ctx.check("values.within-limits-after-do_fit", inside, {"name": n, "value": pv[n], "limits": [lo, hi], "history": [o[0] for o in W.case.get("pre", [])] + ["<shared sources>"] + [o[0] for o in W.case["history"]]})
     W.values.update(pv)
     W.minview.update(pv)
     return ok
@@ -974,8 +1134,8 @@ def run_twin(W, twin):
     except OpTimeout:
         ctx.discard("do_fit-timeout")
         return None
-    except Exception:
-        ctx.violation(None, "do_fit.no-exception", {"traceback": fmt_exc(), "where": "twin"})
+    except Exception as e:
+        ctx.violation(classify_do_fit_exception(e), "do_fit.no-exception", {"traceback": fmt_exc(), "where": "twin", "original_exception": repr(e.__context__)})
         return False
     ctx.op("do_fit")
     n0 = nwit(ctx)
@@ -1078,17 +1238,13 @@ def run_case(ctx, case):
     W.last_op = "construct"
     if not check_all(W, "initial"):
         return nontrivial
-    if not setup_shared(W):
-        return nontrivial
-    if case.get("twin"):
-        twin = Member(case["members"][0]["spec"], case["members"][0]["setup"], minimizer=mz)
-        r = run_twin(W, twin)
-        if not r:
-            return nontrivial
-    did_fit = False
-    for i, op in enumerate(case["history"]):
+    st = {"did_fit": False}
+    nsm = not_subsequence_members([mb.ref.model.pnames for mb in members])
+
+    def step(i, op, phase):
+        """one op of the history; False ends the case"""
         k = op[0]
-        where = "after op %d %s" % (i, k)
+        where = "after %sop %d %s" % (phase, i, k)
         if k == "set_parameter_values":
             ctx.op(k)
             multi.set_parameter_values(**op[1])
@@ -1098,7 +1254,7 @@ def run_case(ctx, case):
             ctx.op(k)
             members[op[1]].fit.set_parameter_values(**op[2])
             W.values.update(op[2])
-            if did_fit:
+            if st["did_fit"]:
                 ctx.stratum("member-set-after-fit")
         elif k == "fix_parameter":
             ctx.op(k)
@@ -1111,6 +1267,23 @@ def run_case(ctx, case):
             ctx.op(k)
             multi.release_parameter(op[1])
             W.fixed.discard(op[1])
+        elif k == "limit_parameter":
+            n, lo, hi = op[1], op[2], op[3]
+            v = W.values[n]
+            if (lo is not None and v <= lo) or (hi is not None and v >= hi):
+                # generated around the value last declared; a fit has moved the parameter since (what a limit does to a value outside it is not C11's business)
+                ctx.discard("limit-skipped-live-value-not-inside")
+                return True
+            ctx.op(k)
+            multi.limit_parameter(n, lo, hi)
+            W.limits[n] = [lo, hi]
+            ctx.stratum("limited")
+        elif k == "unlimit_parameter":
+            if op[1] not in W.limits:
+                return True
+            ctx.op(k)
+            multi.unlimit_parameter(op[1])
+            del W.limits[op[1]]
         elif k in ("add_parameter_constraint", "add_matrix_parameter_constraint"):
             ctx.op("add_parameter_constraint")
             a = op[1]
@@ -1121,18 +1294,18 @@ def run_case(ctx, case):
             W.multi_constraints.append(global_constraint(W.names, op))
         elif k == "member":
             ctx.op("member.add_parameter_constraint")
-            where = "after op %d member[%d].%s" % (i, op[1], op[2][0])
+            where = "after %sop %d member[%d].%s" % (phase, i, op[1], op[2][0])
             members[op[1]].apply(op[2])
         elif k == "do_fit":
             W.push()
             if not all(mb.admissible() for mb in members):
                 ctx.discard("do_fit-skipped-inadmissible")
-                continue
+                return True
             if W.shared_mode:
                 okV, cond = pd_info(W.joint()[0])
                 if not okV or cond > 1e6:
                     ctx.discard("do_fit-skipped-joint-covariance-ill-conditioned")
-                    continue
+                    return True
             ctx.op(k)
             a = op[1]
             try:
@@ -1145,23 +1318,31 @@ def run_case(ctx, case):
                             multi.asymmetric_parameter_errors
             except OpTimeout:
                 ctx.discard("do_fit-timeout")
-                return nontrivial
+                return False
             except np.linalg.LinAlgError:
                 ctx.discard("do_fit-minimizer-linear-algebra-failure")  # numerical Hessian of the backend not invertible: not a statement about multi-fits
-                return nontrivial
-            except Exception:
-                ctx.violation(None, "multi.do_fit.no-exception", {"traceback": fmt_exc(), "op_index": i})
-                return nontrivial
-            did_fit = True
+                return False
+            except Exception as e:
+                ctx.violation(classify_do_fit_exception(e), "multi.do_fit.no-exception", {"traceback": fmt_exc(), "op_index": i, "original_exception": repr(e.__context__)})
+                return False
+            st["did_fit"] = True
             if W.fixed:
                 ctx.stratum("fix-then-fit")
+            if W.fixed & st["pre_fixed"] and W.shared_mode:
+                ctx.stratum("pre-shared:fix+fit")
+            if set(W.limits) & st["pre_limited"] and W.shared_mode:
+                ctx.stratum("pre-shared:limit+fit")
             if not read_values(W):
-                return nontrivial
+                return False
             W.last_op = k
+            if nsm:
+                ctx.stratum("order:not-subsequence+fit")
+                for _j in nsm:
+                    ctx._count("member.result-by-name(order-not-subsequence)")
             if not check_after_fit(W, where, a["asym"]):
-                return nontrivial
+                return False
             if gls_applicable(W) and not check_gls(W, where):
-                return nontrivial
+                return False
         elif k == "disable_error":
             ctx.op(k)
             name = op[1]
@@ -1171,7 +1352,7 @@ def run_case(ctx, case):
             except Exception as e:
                 key = K_DIS_RAISE if (isinstance(e, ValueError) and len(holders) < nm) else None
                 ctx.violation(key, "multi.disable_error.no-exception", {"traceback": fmt_exc(), "source": name, "members_holding_the_source": holders, "n_members": nm})
-                return nontrivial
+                return False
             for mb in members:
                 for s in mb.ref.sources:
                     if s["name"] == name:
@@ -1180,7 +1361,37 @@ def run_case(ctx, case):
         else:
             raise KeyError(k)
         W.last_op = k
-        if not check_all(W, where):
+        return bool(check_all(W, where))
+
+    # ---- ops issued on the multi-fit before its first shared source (adding it rebuilds the shared cost and the fitter)
+    st["pre_fixed"], st["pre_limited"] = set(), set()
+    for i, op in enumerate(case.get("pre", [])):
+        if not step(i, op, "pre-shared "):
+            return nontrivial
+    if case["shared"] and any(s["expect"] == "ok" for s in case["shared"]):
+        st["pre_fixed"], st["pre_limited"] = set(W.fixed), set(W.limits)
+        kinds = [o[0] for o in case.get("pre", [])]
+        if W.fixed:
+            ctx.stratum("pre-shared:fix")
+        if W.limits:
+            ctx.stratum("pre-shared:limit")
+        if "release_parameter" in kinds:
+            ctx.stratum("pre-shared:release")
+        if "unlimit_parameter" in kinds:
+            ctx.stratum("pre-shared:unlimit")
+    if not setup_shared(W):
+        return nontrivial
+    if nsm:
+        ctx.stratum("order:not-subsequence")
+        if W.shared_mode:
+            ctx.stratum("order:not-subsequence+shared")
+    if case.get("twin"):
+        twin = Member(case["members"][0]["spec"], case["members"][0]["setup"], minimizer=mz)
+        r = run_twin(W, twin)
+        if not r:
+            return nontrivial
+    for i, op in enumerate(case["history"]):
+        if not step(i, op, ""):
             return nontrivial
     return nontrivial
 
